@@ -284,6 +284,9 @@ func pathDepth(v ssa.Value, d int) string {
 		if strings.HasPrefix(name, "Get") && len(args) == 1 && len(name) > 3 {
 			return pathDepth(args[0], d+1) + "." + name[3:]
 		}
+		if b, ok := cc.Value.(*ssa.Builtin); ok && b.Name() == "len" && len(cc.Args) == 1 {
+			return "len(" + pathDepth(cc.Args[0], d+1) + ")"
+		}
 		if f := cc.StaticCallee(); f != nil && isPureHelper(f) {
 			var as []string
 			for _, a := range args {
@@ -702,6 +705,8 @@ func errResultIndex(fn *ssa.Function) int {
 	return -1
 }
 
+var nonNilVisiting = map[*ssa.Function]bool{}
+
 // definitelyNonNilErr: value is the result of a constructor of errors (errors.New, fmt.Errorf, errors.Wrap*, a
 // global error variable load, ctx.Err()).
 func definitelyNonNilErr(v ssa.Value) bool {
@@ -715,6 +720,20 @@ func definitelyNonNilErr(v ssa.Value) bool {
 		}
 		if x.Common().IsInvoke() && x.Common().Method.Name() == "Err" {
 			return true // ctx.Err() after Done
+		}
+		// error constructors of the analysed module: every return yields a constructed error
+		if f := x.Common().StaticCallee(); f != nil && f.Blocks != nil && inModule(fnPkgPath(f)) && f.Signature.Results().Len() == 1 && !nonNilVisiting[f] {
+			nonNilVisiting[f] = true
+			defer delete(nonNilVisiting, f)
+			all := true
+			for _, r := range returnsOf(f) {
+				for _, o := range returnOperands(r)[0] {
+					if !definitelyNonNilErr(o) {
+						all = false
+					}
+				}
+			}
+			return all && len(returnsOf(f)) > 0
 		}
 	case *ssa.UnOp:
 		if x.Op == token.MUL {
@@ -747,9 +766,28 @@ func successReturns(fn *ssa.Function) []*ssa.Return {
 		ops := returnOperands(r)[idx]
 		mayNil := false
 		for _, o := range ops {
-			if !definitelyNonNilErr(o) {
-				mayNil = true
+			if definitelyNonNilErr(o) {
+				continue
 			}
+			// `if err != nil { return err }`: the returned value is known non-nil on every path to this return
+			ov := o
+			if mustCross(r, func(e edge) bool {
+				cond := condOf(e.from)
+				if cond == nil {
+					return false
+				}
+				x, isEq, ok := nilTest(cond)
+				if !ok || !(x == ov || derivesFrom(ov, x, 0) || derivesFrom(x, ov, 0)) {
+					return false
+				}
+				if isEq {
+					return e.succ == 1
+				}
+				return e.succ == 0
+			}) {
+				continue
+			}
+			mayNil = true
 		}
 		if mayNil {
 			out = append(out, r)
